@@ -490,6 +490,45 @@ def r_pack_return(text, idx_name, indices, ctor_dims, ret_type, elem_cast=None):
     return text[:m.start()] + rep + text[cb + 1:], 1
 
 
+def r_brace_call_arg(text, callee, dims, ctype, illformed="verif_illformed_brace_init()"):
+    """R8b: CALL({e0, .., eK-1}) where the parameter is a covfie::array of `dims` elements:
+       K == dims -> compound literal; K == 1 -> broadcast; otherwise ill-formed in C++ (reachability asserted)."""
+    count = 0
+    rx = re.compile(r"\b" + re.escape(callee) + r"\s*\(\s*\{")
+    pos = 0
+    while True:
+        m = rx.search(text, pos)
+        if not m:
+            break
+        ob = m.end() - 1
+        cb = match_close(text, ob)
+        inner = text[ob + 1:cb]
+        # split at top-level commas
+        parts, depth, cur = [], 0, ""
+        for ch in inner:
+            if ch in "([{":
+                depth += 1
+            elif ch in ")]}":
+                depth -= 1
+            if ch == "," and depth == 0:
+                parts.append(cur.strip()); cur = ""
+            else:
+                cur += ch
+        if cur.strip():
+            parts.append(cur.strip())
+        K = len(parts)
+        if K == dims:
+            rep = "(%s){{ %s }}" % (ctype, ", ".join(parts))
+        elif K == 1:
+            rep = "(%s){{ %s }}" % (ctype, ", ".join(["(" + parts[0] + ")"] * dims))
+        else:
+            rep = illformed
+        text = text[:ob] + rep + text[cb + 1:]
+        pos = ob + len(rep)
+        count += 1
+    return text, count
+
+
 def r_fold_or(text, idx_name, indices):
     """R8: `return (EXPR(Idxs) | ...);` -> explicit disjunction."""
     rx = re.compile(r"\breturn\s*\(")
